@@ -102,7 +102,7 @@ theorem select_document_order_plain (ρ : Env) (nodes : List Node) (qs : List Qu
 `wEnv`) is defined in IV/Lemmas/Query.lean -/
 
 /-- KNOWN FINDING deep-nested-order: `top.find("A", "B")` returns B1 (id 4) before B2 (id 3) -/
-theorem order_witness_ids : entryFind wEnv (top wTop) [qA, qB] false = some [some 4, some 3] := by decide
+theorem order_witness_ids : entryFind wEnv (top wTop) [qA, qB] false = some [4, 3] := by decide
 
 theorem order_witness : ¬ DocumentOrder := by
   intro h
@@ -139,7 +139,7 @@ def ChainedDocumentOrder : Prop :=
 /-- KNOWN FINDING nested-result-duplicates: `top.find("A").find("B")` returns B2, B1, B2 -/
 theorem nested_result_duplicates_ids :
     (selectNodes wEnv [qA] (top wTop).kids true).bind (fun r1 => resultFind wEnv r1 [qB] false)
-      = some [some 3, some 4, some 3] := by decide
+      = some [3, 4, 3] := by decide
 
 theorem nested_result_duplicates_witness : ¬ ChainedDocumentOrder := by
   intro h
@@ -160,36 +160,56 @@ theorem chained_document_order_partial (ρ : Env) (e : Node) (q1 : Query) (qs : 
     rw [hr1]; exact cut_kids (cut_of_noNest _ _ hn1)
   exact select_document_order_partial ρ e.kids (grandchildren r1) qs deep r2 hc h2 hn
 
-/-! ## 3. roots -/
+/-! ## 3. roots (select after fix 9796838: a parentless result is its own root) -/
 
-/-- with `roots` the loop over the results yields the roots (`Entry.root`, the last element of the
-parent chain) de-duplicated in first-occurrence order -/
-theorem roots_exact (res : List Node) : rootsOf res = firstOcc rootKey (res.map Node.root) := by
+/-- with `roots` the loop over the results yields, for every result, its furthest ancestor
+(`Entry.root`, the last element of the parent chain) or the node itself when it has no parent,
+de-duplicated by identity in first-occurrence order -/
+theorem roots_exact (res : List Node) : rootsOf res = firstOcc Tree.id (res.map Node.rootOrSelf) := by
   simp only [rootsOf, rootsLoop_eq, List.nil_append]
   rw [List.filter_eq_self.mpr (by intros; rfl)]
 
 theorem select_roots_exact (ρ : Env) (qs : List Query) (nodes : List Node) (deep : Bool) :
     select ρ qs nodes deep true =
-      (selectNodes ρ qs nodes deep).map (fun res => (firstOcc rootKey (res.map Node.root)).map rootKey) := by
+      (selectNodes ρ qs nodes deep).map (fun res => (firstOcc Tree.id (res.map Node.rootOrSelf)).map Tree.id) := by
   simp [select, roots_exact]
 
 /-- … which means: no identity twice, every result's root present, nothing else, in the order of
 the first result that has the root -/
 theorem roots_spec (res : List Node) :
-    ((rootsOf res).map rootKey).Nodup ∧
-    (∀ n ∈ res, rootKey n.root ∈ (rootsOf res).map rootKey) ∧
-    (rootsOf res).Sublist (res.map Node.root) := by
+    ((rootsOf res).map Tree.id).Nodup ∧
+    (∀ n ∈ res, n.rootOrSelf.id ∈ (rootsOf res).map Tree.id) ∧
+    (rootsOf res).Sublist (res.map Node.rootOrSelf) := by
   rw [roots_exact]
   refine ⟨firstOcc_nodup _ _, ?_, firstOcc_sublist _ _⟩
   intro n hn
-  obtain ⟨y, hy, hk⟩ := firstOcc_covers rootKey (res.map Node.root) n.root (List.mem_map_of_mem hn)
+  obtain ⟨y, hy, hk⟩ := firstOcc_covers Tree.id (res.map Node.rootOrSelf) n.rootOrSelf (List.mem_map_of_mem hn)
   exact List.mem_map.mpr ⟨y, hy, hk⟩
 
-/-- the root of every returned node is the root of the start nodes it was reached from: whatever
-holds of the roots of all start nodes holds of the roots of all results -/
+/-- FULL statement (true since fix 9796838; it was false before: a parentless result gave `None`):
+every root returned is an Entry, namely the furthest ancestor of one of the results, or that
+result itself when it has no parent -/
+def RootsAreNodes : Prop :=
+  ∀ (res : List Node), ∀ r ∈ rootsOf res, ∃ n ∈ res,
+    (n.anc = [] → r = n.tree) ∧ (∀ a, n.anc.getLast? = some a → r = a)
+
+theorem roots_are_nodes : RootsAreNodes := by
+  intro res r hr
+  have hsub := (roots_spec res).2.2.subset hr
+  obtain ⟨n, hn, rfl⟩ := List.mem_map.mp hsub
+  refine ⟨n, hn, ?_, ?_⟩
+  · intro ha; simp [Node.rootOrSelf, Node.root, ha]
+  · intro a ha; simp [Node.rootOrSelf, Node.root, ha]
+
+/-- regression of fix 9796838: `select(compile_queries("a"), [Entry("a")], roots=True)` returns the entry itself -/
+theorem roots_parentless_regression :
+    select wEnv [.name (.lit (.str ['a']))] [top (.node 0 (.str ['a']) [] [])] false true = some [0] := by decide
+
+/-- the root of every returned node is the root of the start node it was reached from: whatever
+holds of the roots (or selves) of all start nodes holds of the roots of all results -/
 theorem roots_ultimate (ρ : Env) (R : Tree → Prop) (qs : List Query) (nodes : List Node) (deep : Bool)
-    (res : List Node) (hR : ∀ s ∈ nodes, Rooted R s) (h : selectNodes ρ qs nodes deep = some res) :
-    ∀ m ∈ res, Rooted R m := by
+    (res : List Node) (hR : ∀ s ∈ nodes, R s.rootOrSelf) (h : selectNodes ρ qs nodes deep = some res) :
+    ∀ m ∈ res, R m.rootOrSelf := by
   cases qs with
   | nil => cases h
   | cons q qs =>
@@ -200,52 +220,17 @@ theorem roots_ultimate (ρ : Env) (R : Tree → Prop) (qs : List Query) (nodes :
     · exact hR
     · exact rooted_flatten R nodes hR
 
-/-- `doc.select(..., roots=True)` / `doc.find(..., roots=True)` on a document top: every result's
-ultimate ancestor is the document itself -/
-theorem entry_roots (ρ : Env) (e : Node) (he : e.anc = []) (qs : List Query) (deep : Bool) (res : List Node)
-    (h : selectNodes ρ qs e.kids deep = some res) : ∀ m ∈ res, m.root = some e.tree := by
-  intro m hm
-  have := roots_ultimate ρ (fun r => r = e.tree) qs e.kids deep res
-    (fun s hs => ⟨e.tree, by rw [root_kids hs]; simp [Node.root, he], rfl⟩) h m hm
-  obtain ⟨r, hr, rfl⟩ := this
-  exact hr
+/-- `e.select(..., roots=True)` / `e.find(..., roots=True)`: every result has the root of `e`
+(`e` itself when `e` is a document top), so the result is empty or that single root -/
+theorem entry_roots (ρ : Env) (e : Node) (qs : List Query) (deep : Bool) (res : List Node)
+    (h : selectNodes ρ qs e.kids deep = some res) : ∀ m ∈ res, m.rootOrSelf = e.rootOrSelf :=
+  roots_ultimate ρ (fun r => r = e.rootOrSelf) qs e.kids deep res (fun _ hs => rootOrSelf_kids hs) h
 
-example : (top wTop).anc = [] ∧ selectNodes wEnv [qB] (top wTop).kids true ≠ some [] := by
+example : (top wTop).rootOrSelf = wTop ∧ selectNodes wEnv [qB] (top wTop).kids true ≠ some [] := by
   refine ⟨rfl, ?_⟩
   intro h
   have := congrArg (Option.map (List.map Node.id)) h
   revert this; decide
-
-/-- FULL statement (false, see `roots_parentless_witness`): with `roots` every returned child is an Entry -/
-def RootsAreNodes : Prop :=
-  ∀ (ρ : Env) (qs : List Query) (nodes : List Node) (deep : Bool) (ids : List (Option Nat)),
-    select ρ qs nodes deep true = some ids → none ∉ ids
-
-/-- PARTIAL: true when every start node has a parent — which is the case for Entry.select and
-Result.select (children / grandchildren) -/
-theorem roots_are_nodes_partial (ρ : Env) (qs : List Query) (nodes : List Node) (deep : Bool)
-    (ids : List (Option Nat)) (hp : ∀ s ∈ nodes, s.anc ≠ [])
-    (h : select ρ qs nodes deep true = some ids) : none ∉ ids := by
-  simp only [select, if_true, Option.map_eq_some_iff] at h
-  obtain ⟨res, hres, rfl⟩ := h
-  have hroot := roots_ultimate ρ (fun _ => True) qs nodes deep res (fun s hs => by
-    cases hl : s.anc.getLast? with
-    | none => exact absurd (List.getLast?_eq_none_iff.mp hl) (hp s hs)
-    | some r => exact ⟨r, hl, trivial⟩) hres
-  intro hmem
-  obtain ⟨r, hr, hk⟩ := List.mem_map.mp hmem
-  have hsub := (roots_spec res).2.2.subset hr
-  obtain ⟨n, hn, rfl⟩ := List.mem_map.mp hsub
-  obtain ⟨r', hr', _⟩ := hroot n hn
-  rw [hr'] at hk
-  simp [rootKey] at hk
-
-/-- KNOWN FINDING roots-parentless-none: `select(compile_queries("a"), [Entry("a")], roots=True)` -/
-theorem roots_parentless_witness : ¬ RootsAreNodes := by
-  intro h
-  exact h wEnv [.name (.lit (.str ['a']))] [top (.node 0 (.str ['a']) [] [])] false [none] (by decide) (by simp)
-
-example : ∀ s ∈ (top wTop).kids, s.anc ≠ [] := by decide
 
 /-! ## 4. find, __getitem__ -/
 
@@ -256,12 +241,12 @@ theorem find_eq_select_deep (ρ : Env) (e : Node) (children : List Node) (qs : L
 
 /-- `entry[q]` is the one-level, non-deep select -/
 theorem getitem_eq_select (ρ : Env) (e : Node) (q : Query) :
-    entrySelect ρ e [q] false false = some ((entryGetitem ρ e q).map (fun n => some n.id)) := by
+    entrySelect ρ e [q] false false = some ((entryGetitem ρ e q).map Node.id) := by
   simp [entrySelect, select, selectNodes, runQueries, matchLv, entryGetitem]
 
 /-- `result[q]` is the one-level, non-deep select over the grandchildren -/
 theorem result_getitem_eq_select (ρ : Env) (children : List Node) (q : Query) :
-    resultSelect ρ children [q] false false = some ((resultGetitem ρ children q).map (fun n => some n.id)) := by
+    resultSelect ρ children [q] false false = some ((resultGetitem ρ children q).map Node.id) := by
   simp [resultSelect, select, selectNodes, runQueries, matchLv, resultGetitem]
 
 /-- a tuple query: the name matches and (no attribute query, or some attribute satisfies some of them) -/
